@@ -180,7 +180,11 @@ pub fn lattice_uint(src: &mut Src, max: u64) -> u64 {
         u64::MAX - 1,
         u64::MAX,
     ];
-    let k = src.below(L.len() + 4);
+    // protocol-typical constants (sizes, counts) that code likes to special-case
+    const TYPICAL: [u64; 24] = [
+        2, 3, 4, 5, 6, 7, 8, 10, 16, 32, 48, 63, 64, 100, 127, 128, 512, 1000, 1024, 1200, 2048, 3072, 4096, 7609,
+    ];
+    let k = src.below(L.len() + 7);
     if k < L.len() {
         if L[k] <= max {
             L[k]
@@ -189,6 +193,12 @@ pub fn lattice_uint(src: &mut Src, max: u64) -> u64 {
         }
     } else if k == L.len() {
         max.saturating_sub(1)
+    } else if k <= L.len() + 2 {
+        let t = *src.pick(&TYPICAL);
+        t.min(max)
+    } else if k == L.len() + 3 {
+        // small values exhaustively reachable
+        (src.below(4200) as u64).min(max)
     } else {
         let r = src.u64();
         if max == u64::MAX {
